@@ -16,7 +16,7 @@ from . import session_client as SC
 
 LEAN_MODULES = ["GardenVerif.Props.C10"]
 
-DEFS = SC.DEFS[:6] + ["test t_bad { let tl = 1  nosuch_t }", "test t_call { f(100) }"]
+DEFS = SC.DEFS[:6]
 LETS = ["let tv1 = 5", "let tv2 = [1, 2]", "let tv3 = \"s\""]
 # (source, locals of the aborted frames / blocks, toplevel lets the source performs before it stops)
 STOPPERS = [
@@ -31,8 +31,9 @@ STOPPERS = [
     ("match Some(2) { Some(p) => { let mp = p  nosuchm } None => 0 }", ["p", "mp"], []),
     ("pr(f(100))", ["a", "la", "b", "lb", "inner", "s"], []),
     ("[1, h(f(100))]", ["a", "la", "b", "lb", "inner", "n", "acc"], []),
-    (":test t_bad", ["tl"], []),
-    (":test t_call", ["a", "la", "b", "lb", "inner"], []),
+    # loading a failing test stops inside the test frame
+    ("test t_bad { let tl = 1  nosuch_t }", ["tl"], []),
+    ("test t_call { let tc = 2  f(100) }", ["tc", "a", "la", "b", "lb", "inner"], []),
     ("if 1 { 2 } else { 3 }", [], []),
     ("match 1 { Some(x) => x }", ["x"], []),
     ("nosuch1 + nosuch2", [], []),
